@@ -1,8 +1,9 @@
 #!/bin/sh
 # developer helper: thorough run of the named checks without touching evidence; prints self-test lines that are not plain passes
+# ST_REPO=<dir> analyses another tree (e.g. a clean worktree) instead of /repo
 cd "$(dirname "$0")/.."
 for p in "$@"; do
-  python3 check.py "$p" --no-evidence --tier thorough > /tmp/st-$p.log 2>&1
+  python3 check.py "$p" --no-evidence --tier thorough ${ST_REPO:+--repo "$ST_REPO"} > /tmp/st-$p.log 2>&1
   echo "== $p exit=$? $(grep -c 'selftest .* fired' /tmp/st-$p.log) fired, $(grep -c 'selftest .* silent' /tmp/st-$p.log) silent, $(grep -c 'selftest .* skipped' /tmp/st-$p.log) skipped"
   grep -E 'MISSED|FALSE-ALARM|ANALYSIS-ERROR|^VIOLATION|skipped' /tmp/st-$p.log | cut -c1-300
   grep -E "^$p: " /tmp/st-$p.log
